@@ -242,6 +242,9 @@ def cond_triggers(spec, c, store):
         return False
 
     for a in atoms(c):
+        if a[0] == "truth" and a[1][0] == "b":
+            # `with expr:` is the comparison expr != 0
+            a = ["cmp", "!=", a[1], ["c", 0]]
         if a[0] != "cmp":
             continue
         L, R = a[2], a[3]
